@@ -423,6 +423,36 @@ def scan_emitter_adds():
     return sorted(out)
 
 
+def scan_emitter_decl_rows():
+    """literal Fortran declarations written by wrapf.py itself (struct members, capsule / size / len arguments ...): for every
+    statement block that both appends a string naming an iso_c_binding symbol in a type spec - `(kind=C_X)`, `type(C_X)`,
+    `integer(C_X)` - and calls set_f_module with literal symbols, one row (needed = symbols named, provided = symbols of the
+    set_f_module calls of the same block)"""
+    tree = ast.parse(open(os.path.join(common.REPO, "shroud", "wrapf.py")).read())
+    decl = re.compile(r"\((?:kind=)?(C_[A-Z0-9_]+)\)")
+    rows = []
+    compound = (ast.If, ast.For, ast.While, ast.With, ast.Try, ast.FunctionDef, ast.ClassDef)
+    for node in ast.walk(tree):
+        for field in ("body", "orelse", "finalbody"):
+            block = getattr(node, field, None)
+            if not isinstance(block, list):
+                continue
+            prov, need = [], []
+            for st in block:
+                if isinstance(st, compound):
+                    continue
+                for n in ast.walk(st):
+                    if isinstance(n, ast.Call) and isinstance(n.func, ast.Attribute) and n.func.attr == "set_f_module":
+                        prov += [a.value for a in n.args[2:] if isinstance(a, ast.Constant) and isinstance(a.value, str)]
+                    if isinstance(n, ast.Constant) and isinstance(n.value, str):
+                        need += decl.findall(n.value)
+            if prov and need:
+                rows.append({"name": "wrapf.py:%d" % block[0].lineno, "kind": 0, "needed": sorted(set(need)),
+                             "f_module": sorted(set(prov)), "line": []})
+    rows.sort(key=lambda r: int(r["name"].split(":")[1]))
+    return rows
+
+
 def render_fmodule(rows, emitter):
     syms = sorted(set(x for r in rows for k in ("needed", "f_module", "line") for x in r[k]) | set(emitter))
     sid = {n: i for i, n in enumerate(syms)}
@@ -461,7 +491,7 @@ def regenerate(jobs=None):
     graphs, conflicts, provided, entries, failed = build(results)
     text, nid, info = render(graphs, provided, entries)
     changed = write_if_changed(GEN, text)
-    frows = getattr(build, "fmodule_rows", [])
+    frows = list(getattr(build, "fmodule_rows", [])) + scan_emitter_decl_rows()
     emitter = scan_emitter_adds()
     changed = write_if_changed(GEN_FMOD, render_fmodule(frows, emitter)) or changed
     info["fmodule"] = {"rows": len(frows), "with_needed": sum(1 for r in frows if r["needed"]), "emitter_adds": emitter,
